@@ -113,10 +113,10 @@ def ensure_makefile():
             raise BuildError("coq_makefile failed", out + err)
 
 
-def coq_make(targets=None, jobs=16, timeout=3000):
+def coq_make(targets=None, jobs=16, timeout=3000, keep_going=False):
     """Build .vo targets (relative to coq/). None = everything."""
     ensure_makefile()
-    cmd = ["timeout", str(timeout), "make", f"-j{jobs}"]
+    cmd = ["timeout", str(timeout), "make", f"-j{jobs}"] + (["-k"] if keep_going else [])
     if targets:
         cmd += targets
     rc, out, err = sh(cmd, cwd=COQ, timeout=timeout + 60)
